@@ -35,9 +35,9 @@ class GenFacts:
         self.repo = repo
         self.unroll = unroll
         self.methods = repo.methods(GEN, 'CodeGen')
-        self.gen_methods = {n: f for n, f in self.methods.items()
-                            if efg.is_generator_function(f) and not self._is_ctxmanager(f)
-                            and n != 'gen_lines'}
+        self.all_gen_methods = {n: f for n, f in self.methods.items()
+                                if efg.is_generator_function(f) and not self._is_ctxmanager(f)
+                                and n != 'gen_lines'}
         self._paths = {}
         self._inlined = {}
         self.deep = set()      # methods enumerated with loop bodies followed three times (thorough tier)
@@ -76,8 +76,46 @@ class GenFacts:
         return any('contextmanager' in src(d) for d in fn.decorator_list)
 
     def _table(self, name):
-        node = self.repo.module_assign(GEN, name)
-        return {k: v for k, v, _, _ in dict_literal(node, name)}
+        """{key text: value text} of a module-level table of generator.py.  A plain dict literal is read from the syntax;
+        a table that is computed (built from pairs, merged, comprehended ...) is obtained by interpreting the module
+        (CONSTEVAL), keys and values being classes of hidc.ast / hidc.codegen.asm."""
+        try:
+            node = self.repo.module_assign(GEN, name)
+            return {k: v for k, v, _, _ in dict_literal(node, name)}
+        except AnalysisError:
+            pass
+        ns = self.module_ns()
+        val = ns.get(name)
+        if not isinstance(val, dict) or not val:
+            raise AnalysisError(f'{name}: cannot determine the table (not a dict after evaluating {GEN})')
+        asm_ns, ast_ns = ns.get('asm'), ns.get('ast')
+
+        def text(c):
+            nm = getattr(c, '__name__', None)
+            if nm is None:
+                raise AnalysisError(f'{name}: entry {c!r} is not a class')
+            if getattr(asm_ns, nm, None) is c:
+                return f'asm.{nm}'
+            if getattr(ast_ns, nm, None) is c:
+                return f'ast.{nm}'
+            raise AnalysisError(f'{name}: entry {nm} is neither an asm nor an ast class')
+        return {text(k): text(v) for k, v in val.items()}
+
+    def module_ns(self):
+        """Namespace of generator.py, interpreted (never imported); cached per repository."""
+        cache = self.repo.__dict__.setdefault('_gen_ns', {})
+        if 'ns' not in cache:
+            from .consteval import Interp
+            it = Interp(self.repo)
+            it.allow_generators = True
+            try:
+                cache['ns'] = it.load(GEN)
+            except AnalysisError:
+                raise
+            except Exception as e:      # noqa: BLE001
+                raise AnalysisError(f'cannot evaluate module {GEN}: {type(e).__name__}: {e}')
+            cache['it'] = it
+        return cache['ns']
 
     # ------------------------------------------------------------------
     def paths(self, name):
@@ -97,6 +135,30 @@ class GenFacts:
             self._paths[name] = ps
         return self._paths[name]
 
+    @property
+    def gen_methods(self):
+        """Generator methods that are analysed on their own.  A *fragment* - a helper that did not exist when the rules
+        were written, is spliced into its callers (helpers()) and is only ever called through `yield from` from
+        analysed functions - is not: what it emits is judged in the context of every caller."""
+        if getattr(self, '_gen_methods', None) is None:
+            frag = self.fragments()
+            self._gen_methods = {n: f for n, f in self.all_gen_methods.items() if n not in frag}
+        return self._gen_methods
+
+    def fragments(self):
+        if getattr(self, '_fragments', None) is None:
+            spliced = {k[5:] for k in self.helpers()} - set(INLINE_HELPERS)
+            frag = set()
+            for h in spliced:
+                uses = [x for fn in self.methods.values() for x in ast.walk(fn)
+                        if isinstance(x, ast.Attribute) and x.attr == h and src(x.value) == 'self']
+                calls = [x for fn in self.methods.values() for x in ast.walk(fn)
+                         if isinstance(x, ast.YieldFrom) and isinstance(x.value, ast.Call) and src(x.value.func) == f'self.{h}']
+                if uses and len(uses) == len(calls):
+                    frag.add(h)
+            self._fragments = frag
+        return self._fragments
+
     def helpers(self):
         """Helpers whose emissions are spliced into their callers before rules are applied: the three small
         ones of today's tree, plus any generator method that did not exist when the rules were written and is a
@@ -111,7 +173,7 @@ class GenFacts:
         changed = True
         while changed:
             changed = False
-            for n, fn in self.gen_methods.items():
+            for n, fn in self.all_gen_methods.items():
                 if n in names or n in known or not roles():
                     continue
                 if any(isinstance(x, (ast.For, ast.While)) for x in ast.walk(fn)):
@@ -189,6 +251,9 @@ class GenFacts:
         m = text
         if m.startswith('halt_inversion['):
             inner = m[len('halt_inversion['):-1]
+            if inner.startswith('asm.') and inner in self.halt_inversion and self.halt_inversion[inner].startswith('asm.'):
+                # a literal key (a helper called with a concrete instruction class): the table decides the class
+                return ('cls', self.halt_inversion[inner][4:])
             return ('inv', inner)
         if m.startswith('compare_map.get(') or m.startswith('compare_map['):
             return ('tbl', 'compare_map')
